@@ -35,6 +35,8 @@ CONFIGS = {
     'statectl': ('tao::pegtl::nothing', None, 'vf::sc_control', True, 0),
     'statectl_bool': ('vf::act_bool', 'bool', 'vf::sc_control', True, 2),
     'statectl_void0': ('vf::act0_void', 'void0', 'vf::sc_control', True, 0),
+    'statectl_rot': ('vf::act_bool', 'bool', 'vf::scr_control', True, 2),
+    'rmfirst': ('vf::act_bool', 'bool', 'vf::rf_control', True, 2),
 }
 ROF = {'mustif': (1, 101), 'mustif_bool': (1, 101)}
 
@@ -50,7 +52,7 @@ def queries(ctx, prefix, grammars, configs, N, K=3, modes=('ar', 'ao', 'nr'), in
             wrappers = []
             for m in modes:
                 w = 'w_%s_%s_%s' % (gname, tag, m)
-                wl.append('%s( %s, %s, %s, %s, %s, %s%s )' % ('VF_WRAP_HS' if tag.startswith('statectl') else 'VF_WRAP', w, gtext, AM[m[0]], RM[m[1]], act, ctl, ', vf::lazy_in' if lazy else ''))
+                wl.append('%s( %s, %s, %s, %s, %s, %s%s )' % ('VF_WRAP_HS2' if tag == 'statectl_rot' else 'VF_WRAP_OS' if tag == 'rmfirst' else 'VF_WRAP_HS' if tag.startswith('statectl') else 'VF_WRAP', w, gtext, AM[m[0]], RM[m[1]], act, ctl, ', vf::lazy_in' if lazy else ''))
                 wrappers.append((w, 1 if m[0] == 'a' else 0, 1 if m[1] == 'r' else 0, m))
             text = WRAP_HEAD % {'includes': '\n'.join('#include <%s>' % i for i in includes), 'preamble': preamble} + '\n'.join(wl) + '\n'
             unit = ctx.unit('%s_%s_%s%s' % (prefix, gname, tag, '_lazy' if lazy else ''), text=text)
